@@ -257,6 +257,7 @@ PROPS["C08"] = dict(
         R("C08.mux", "crash", "TestC08Mux", 600, 30000),
         R("C08.parsers", "crash", "TestC08Parsers", 3000, 200000),
         R("C08.p2pke_session_channel", "crash", "TestC08Session", 500, 25000),
+        R("C08.dht_requests_during_peer_churn", "kad", "TestC08DHTConcurrent", 10, 300, race=True, shrink=5),
         R("C08.p2pkeswarm_multiswarm_dht", "crash", "TestC08SwarmsAndDHT", 500, 25000),
         R("C08.quic_raw_peer", "crash", "TestC08QuicRawPeer", 200, 6000, quick=dict(shards=2, timeout=600)),
         F("C08.fuzz_session_deliver", "crash", "FuzzSessionDeliver", 60),
